@@ -200,7 +200,7 @@ Definition transform (p : list Z) : option (list Z * bool) :=
 End Scan.
 
 (* newRegExpObject flag loop: (global, ignoreCase, multiline, re2flags) or a
-   SyntaxError (None) on a repeated g/i/m; every other character is ignored *)
+   SyntaxError (None) on a repeated g/i/m and on any other character *)
 Fixpoint flags_loop (l : list Z) (g i m : bool) (re2 : list Z) : option (bool * bool * bool * list Z) :=
   match l with
   | [] => Some (g, i, m, re2)
@@ -208,7 +208,7 @@ Fixpoint flags_loop (l : list Z) (g i m : bool) (re2 : list Z) : option (bool * 
       if c =? 103 then (if g then None else flags_loop r true i m re2)
       else if c =? 109 then (if m then None else flags_loop r g i true (re2 ++ [109]))
       else if c =? 105 then (if i then None else flags_loop r g true m (re2 ++ [105]))
-      else flags_loop r g i m re2
+      else None
   end.
 Definition parse_flags (l : list Z) := flags_loop l false false false [].
 
@@ -217,4 +217,22 @@ Definition wrap_flags (re2flags pat : list Z) : list Z :=
   match re2flags with
   | [] => pat
   | _ => [40; 63] ++ re2flags ++ [58] ++ pat ++ [41]
+  end.
+
+(* newRegExpObject up to the call of regexp.Compile: the error class thrown
+   (5 SyntaxError, 6 TypeError) or 0 when the translated pattern goes to the
+   engine.  The flags are examined first; a pattern that TransformRegExp
+   declares invalid (empty result with an error) is a SyntaxError, one that
+   is valid JavaScript but has no engine spelling (look-ahead, back-reference)
+   a TypeError.  99 = the model ran out of fuel (never: transform_total). *)
+Definition ctor_class (idc : Z -> bool) (pat flags : list Z) : Z :=
+  match parse_flags flags with
+  | None => 5
+  | Some _ =>
+      match transform idc pat with
+      | None => 99
+      | Some ([], true) => 5
+      | Some (_ :: _, true) => 6
+      | Some (_, false) => 0
+      end
   end.
